@@ -234,7 +234,9 @@ class Core:
         for bv, guard in reversed(self.binders):
             goal = z3.ForAll([bv], z3.Implies(zbool(guard), goal))
         self.obligations.append(Obligation(name, kind, len(self.assumptions), path, goal, line, info))
-        # assert-then-assume
+        # assert-then-assume (exit-stage obligations are independent of each other: not assumed)
+        if kind in ("post", "frame"):
+            return
         if not self.binders:
             self.assume(z3.Implies(zbool(live), goal), st)
         else:
@@ -521,7 +523,12 @@ class Core:
             raise Unsupported("store to attribute %s of %r" % (attr, obj.ty), node)
         key = self.field_key(obj.ty.cls, attr, node)
         self.oblige("safe", "none-deref.%s" % attr, obj.z != self.S.null, st, node)
-        self.write_key(st, key, obj.z, self.coerce(v, self.field_type(key), node).z)
+        fty = self.field_type(key)
+        if v.ty.kind == "Opt" and fty.kind != "Opt":
+            # the schema says this attribute never holds None
+            self.oblige("safe", "none-stored-in.%s" % attr, z3.Not(self.opt_is_none(v)), st, node)
+            v = self.opt_val(v)
+        self.write_key(st, key, obj.z, self.coerce(v, fty, node).z)
 
     def write_key(self, st, key, refz, valz):
         arr = self.heap_arr(st, key)
